@@ -62,6 +62,15 @@ pub fn documents(thorough: bool) -> Vec<Doc> {
 			push(V::Map(chunk.iter().enumerate().map(|(i, s)| (V::s(s), V::Int(i as i128))).collect()), "all-scalars-keys");
 		}
 	}
+	// (d') collections around the length-header / size-hint boundaries
+	for len in [15usize, 16, 17, 255, 256, 257, 4095, 4096, 4097, 65535, 65536] {
+		if len > 5000 && !thorough {
+			continue;
+		}
+		push(V::Arr((0..len).map(|i| V::Int((i % 9) as i128)).collect()), "sized");
+		push(V::Map((0..len).map(|i| (V::Str(format!("k{i}")), V::Int((i % 5) as i128))).collect()), "sized");
+		push(V::map(vec![("inner", V::Arr((0..len).map(|i| V::Int((i % 9) as i128)).collect())), ("after", V::s("x"))]), "sized");
+	}
 	// (e) depth chains
 	for d in [1, 2, 3, 8, 16, 32, 63, 64] {
 		for (maps, alt) in [(false, false), (true, false), (false, true)] {
@@ -156,12 +165,15 @@ pub fn first_diff(got: &str, want: &str) -> String {
 
 pub fn run(ctx: &Ctx) -> CheckOutput {
 	let thorough = ctx.thorough();
-	let docs = documents(thorough);
+	let mut docs = documents(thorough);
+	if let Ok(f) = std::env::var("XTMC_C01_FAMILY") {
+		docs.retain(|d| d.family == f);
+	}
 	let accs = par_fold(
 		&docs,
 		|| Acc { t: Tally::default(), toml: TomlBatch::default() },
 		|acc, idx, doc| {
-			let heavy = matches!(doc.family, "all-scalars" | "all-scalars-keys" | "floats");
+			let heavy = matches!(doc.family, "all-scalars" | "all-scalars-keys" | "floats" | "sized");
 			for src in F::ALL {
 				for st in 0..style_count(src) {
 					let Some(input) = spell_doc(src, &doc.v, Style(st)) else {
@@ -196,6 +208,8 @@ pub fn run(ctx: &Ctx) -> CheckOutput {
 					// further spellings of the same value)
 					if src == F::Yaml && st == 3 && matches!(doc.family, "all-scalars" | "strings" | "tree") {
 						if let Ok(text) = std::str::from_utf8(&input) {
+							// libyaml accepts a raw U+FEFF inside a quoted scalar: spell it raw here
+							let text = &text.replace("\\ufeff", "\u{feff}");
 							for enc in 0..4 {
 								let bytes = encode_text(text, enc);
 								for to in [F::Json, F::Msgpack] {
